@@ -223,6 +223,9 @@ func (env *SpecEnv) ident(name string) SV {
 		return SV{t: "0", sort: "Int"}
 	case "H":
 		return SV{t: "H", sort: "Int"}
+	case "ChainID":
+		e.g().DeclFun("ChainID", nil, sortStr)
+		return SV{t: "ChainID", sort: "Str"}
 	case "MaxInt64":
 		return SV{t: "9223372036854775807", sort: "Int"}
 	case "MaxUint64":
